@@ -244,3 +244,19 @@ def mangle(cls_name: str, attr: str) -> str:
     if attr.startswith("__") and not attr.endswith("__"):
         return "_" + cls_name.lstrip("_") + attr
     return attr
+
+
+def norm_locals(node, fn_node) -> str:
+    """Source text of ``node`` with the local variables of ``fn_node`` (names it stores that are not parameters)
+    replaced by v1, v2, ... in order of first appearance: finding keys built from it survive local renames."""
+    import copy
+    params = {p.lstrip("*") for p in params_of(fn_node)} if hasattr(fn_node, "args") else set()
+    stores = {n.id for n in ast.walk(fn_node) if isinstance(n, ast.Name) and isinstance(n.ctx, ast.Store)} - params
+    node2 = copy.deepcopy(node)
+    mapping = {}
+    for n in walk_ordered(node2):
+        if isinstance(n, ast.Name) and n.id in stores:
+            if n.id not in mapping:
+                mapping[n.id] = f"v{len(mapping) + 1}"
+            n.id = mapping[n.id]
+    return short(node2, 300)
